@@ -227,7 +227,7 @@ func (p *Prog) CanonPath(v Val) Val {
 		return v
 	}
 	base := p.eval(f, sts[0].Val, 1)
-	if base.K != KPath {
+	if base.K != KPath || (base.Root == sts[0].Val && len(base.Segs) == 0) {
 		return v
 	}
 	out := base
@@ -339,7 +339,11 @@ func (p *Prog) eval(fr *Frame, v ssa.Value, depth int) Val {
 								f = nil
 							}
 							if f != nil || a.Fr == nil {
-								return p.eval(f, sts[0].Val, depth+1)
+								// (only when the stored value names a location - a shared object or an address; a freshly
+								// created one, e.g. sync.NewCond(...), is named by the field that holds it)
+								if r := p.eval(f, sts[0].Val, depth+1); r.K == KPath && !(r.Root == sts[0].Val && len(r.Segs) == 0) {
+									return r
+								}
 							}
 						}
 					}
